@@ -100,6 +100,8 @@ def main():
     for i in range(0, len(cases), B):
         d.process(cases[i:i + B])
     found = d.finish()
+    from props.bulk_common import bulk_phase
+    bulk_phase(run, bins["release"], "C09")
     proof_failure_violation(run, found or run.violations)
     run.cov["rule"] = ("random interleavings of base-context ops, extra_ctx_add_new(default?), set/unset current id (also unknown ids), extra-context node/edge ops "
                        "(also with nothing selected) and index-map writes; after EVERY op the full observation of ALL contexts: base through the base API, every extra "
@@ -114,4 +116,8 @@ def main():
 
 def replay(path):
     run = Run("C09"); ensure_driver(); bins = builds(run)
+    import json as _j
+    if _j.load(open(path)).get("bulk"):
+        from props.bulk_common import bulk_replay
+        return bulk_replay("C09", bins["release"], path)
     return generic_replay(mk_diff(run, bins), path)
